@@ -102,8 +102,7 @@ Proof.
 Qed.
 
 Lemma rclear_state : forall s,
-  snd (rclear s) = mkrstate (rh s) (rw s) (front s) (gmake (rh s) (rw s) cell_default)
-                            (gmake (rh s) (rw s) MDamaged).
+  snd (rclear s) = rnew (rh s) (rw s) true.
 Proof. reflexivity. Qed.
 
 (* ---------- the invariant ---------- *)
@@ -286,7 +285,9 @@ Proof.
   - apply hinv_frame; auto.
   - apply hinv_skip; auto.
   - rewrite rclear_state, (hi_h _ _ _ _ _ HI), (hi_w _ _ _ _ _ HI).
-    apply (hinv_clear o h w st scr (front st)); auto; apply HI.
+    apply (hinv_clear o h w st scr (gmake h w cell_default)); auto.
+    + apply gdims_gmake.
+    + fold (blank_surface h w). rewrite blank_resolved. apply good_blank. auto.
   - rewrite (hi_h _ _ _ _ _ HI), (hi_w _ _ _ _ _ HI).
     apply (hinv_clear o h w st scr (gmake h w cell_default)); auto.
     + apply gdims_gmake.
@@ -357,7 +358,8 @@ Proof.
     rewrite Hf in Hrest. exact Hrest.
   - cbn [rstep fst snd step_size] in *. destruct (hinv_skip o h w st scr Hok HI) as [_ Hf]. unfold blank_surface in Hf.
     rewrite Hf in Hrest. exact Hrest.
-  - cbn [rstep step_size fst snd] in *. exact Hrest.
+  - cbn [rstep step_size fst snd] in *. rewrite rclear_state in *.
+    rewrite (hi_h _ _ _ _ _ HI), (hi_w _ _ _ _ _ HI) in *. exact Hrest.
   - cbn [rstep fst snd step_size] in *.
     rewrite (hi_h _ _ _ _ _ HI), (hi_w _ _ _ _ _ HI) in *. exact Hrest.
   - cbn [rstep fst snd step_size] in *. exact Hrest.
@@ -406,21 +408,16 @@ Proof.
     + intros [H|H]; auto. left. split; auto. intros Hb. eapply img_cell_blank; eauto.
 Qed.
 
-(* the frame-dropping path of run_render: the application has drawn, then clear(), then frame(),
-   on a terminal in an arbitrary state *)
-Theorem clear_then_frame : forall o h w st scr, oracle_ok o ->
-  rh st = h -> rw st = w -> good_surface o h w (front st) -> scr_ok scr h w ->
+(* clear() on a terminal in an arbitrary state, then the application draws, then frame() *)
+Theorem clear_then_frame : forall o h w st scr s, oracle_ok o ->
+  rh st = h -> rw st = w -> good_surface o h w s -> scr_ok scr h w ->
   let scr1 := exec_list o scr (fst (rclear st)) in
-  let scr' := exec_list o scr1 (fst (frame o (snd (rclear st)))) in
-  sgrid scr' = sgrid (show o h w (front st)) /\ err scr' = false.
+  let scr' := exec_list o scr1 (fst (frame o (rdraw (snd (rclear st)) s))) in
+  sgrid scr' = sgrid (show o h w s) /\ err scr' = false.
 Proof.
-  intros o h w st scr Hok Hh Hw Hs Hscr. pose proof Hok as (Hsp & Hfs & Hlaw). cbv zeta.
+  intros o h w st scr s Hok Hh Hw Hs Hscr. cbv zeta.
   destruct (rclear_cmds st) as [Hall _].
   destruct (exec_image_erases o h w (fst (rclear st)) scr Hscr Hall) as (Hs1 & _ & _).
-  assert (Hst : snd (rclear st) = rdraw (rnew h w true) (front st)).
-  { rewrite rclear_state, Hh, Hw. unfold rdraw. cbn [rnew rh rw front back marks].
-    destruct Hs as [Hd _]. unfold in_domain in Hd. apply andb_true_iff in Hd. destruct Hd as [Hd _].
-    rewrite Hd. reflexivity. }
-  rewrite Hst.
-  destruct (forced_repaint o h w (front st) _ Hok Hs Hs1) as (Hg & He & _). auto.
+  rewrite rclear_state, Hh, Hw.
+  destruct (forced_repaint o h w s _ Hok Hs Hs1) as (Hg & He & _). auto.
 Qed.
